@@ -159,3 +159,73 @@ def posting_differential(scn_kwargs, n, seed=0, max_steps=120):
     for t in threads.values():
       t.join(timeout=0.5)
   return {"schedules": ran, "visible_operations": ops, "disagreements": bad}
+
+
+# ---- singleton scenario (C30) ----------------------------------------------------------------------------------
+class RealSingleton:
+  def __init__(self, sc, sysm):
+    import miros.singleton as sg
+    vis, _, _ = R.visibility_from(sysm)
+    self.d = d = R.Director(vis)
+    self.results = {}
+    made = []
+
+    class Probe:
+      def __init__(self):
+        d.before("klass", "new")
+        made.append(self)
+    self.made = made
+    self.dec = sg.SingletonDecorator(Probe)
+    for k in sc.info["lock_attrs"]:
+      setattr(self.dec, k, R.LockProxy(d, "decorator.%s" % k))
+    R.shared_attr(d, self.dec, "instance", "instance")
+    self.bodies = {t: self.body(t) for t in range(sc.info["nthreads"])}
+
+  def body(self, t):
+    def run():
+      self.results[t] = self.dec()
+    return run
+
+
+def singleton_replay(sc, sysm, res, states, infos, loop):
+  real = RealSingleton(sc, sysm)
+  ok, detail, threads = R.run_threads(real.d, real.bodies, triples(infos))
+  time.sleep(0.02)
+  real.d.release_all()
+  for t in threads.values():
+    t.join(timeout=0.5)
+  ids = {t: id(o) for t, o in real.results.items()}
+  return {"matched": ok, "detail": detail, "real": {"objects_constructed": len(real.made), "distinct_objects_returned": len(set(ids.values())),
+                                                   "callers_finished": sorted(real.results)}}
+
+
+def singleton_differential(nthreads, n, seed=0):
+  from vf.e2.check import build
+  rnd = random.Random(seed)
+  bad = []
+  ops = 0
+  for k in range(n):
+    sc, sysm = build("singleton", dict(nthreads=nthreads))
+    st = sysm.initial()
+    infos = []
+    for _ in range(80):
+      en = sysm.enabled_concrete(st)
+      if not en:
+        break
+      st, info = sysm.step_concrete(st, rnd.choice(en))
+      infos.append(info)
+    real = RealSingleton(sc, sysm)
+    ok, detail, threads = R.run_threads(real.d, real.bodies, triples(infos))
+    time.sleep(0.01)
+    real.d.release_all()
+    for t in threads.values():
+      t.join(timeout=0.5)
+    ops += len(triples(infos))
+    model_distinct = len({st["res.%d" % t] for t in range(nthreads)})
+    real_distinct = len({id(o) for o in real.results.values()})
+    if not ok:
+      bad.append({"schedule": k, "why": detail})
+    elif model_distinct != real_distinct or len(real.made) != st["klass.next"] - 1:
+      bad.append({"schedule": k, "why": "model: %d distinct results, %d constructed; real: %d distinct, %d constructed" % (
+        model_distinct, st["klass.next"] - 1, real_distinct, len(real.made))})
+  return {"schedules": n, "visible_operations": ops, "disagreements": bad}
